@@ -12,6 +12,9 @@ from ..sched import Scheduler, atom, UNKNOWN
 from ..taint import Taint
 
 
+LATER_RULES = ' Later rules: (R6.5) loops over sets (also dicts filled from sets) only accumulate commutatively; (R6.6) = C05 R5.6; (R6.7) = C15 R15.9, the evaluator reveals no set order.'
+
+
 def check(prog: Program, tier: str) -> Result:
     res = Result(
         "C06",
@@ -33,6 +36,7 @@ def check(prog: Program, tier: str) -> Result:
             "ties, determinism of black/sympy."),
         rule_text="instances = dispatch clauses, sort-key components, exposure sites of str-set iteration order; non-trivial = sinks",
     )
+    res.explanation += LATER_RULES
     res.trusted_base = ["CPython ast", "sa/taint.py typing rules", "sa/sched.py shape reader"]
     res.assumptions = ["iteration order of sets of AST nodes follows memory addresses and is NOT reproducible (shown by the round-3 reproducers): decided for loops with carried state (R6.5) and non-injective sort keys (R6.4), other uses of such sets are not decided",
                        "fixes.sort_imports canonicalises the order of import statements"]
